@@ -114,7 +114,8 @@ func body() {
 			{"a", "a_values_nontrivial", 300, 3000},
 			{"b", "b_cases_nontrivial", 150, 1500},
 			{"c", "c_bodies_accepted_by_validation", 150, 1000},
-			{"d", "d_histories_nontrivial", 2, 12},
+			{"d", "d_histories_completed", 2, 20},
+			{"d", "d_histories_nontrivial", 1, 12},
 		} {
 			if enabled(f.m) && r.Counter(f.counter) < int64(r.Pick(f.q, f.t)) {
 				harnessFatal("monitor (%s) observed %d %s, floor is %d; no verdict", f.m, r.Counter(f.counter), f.counter, r.Pick(f.q, f.t))
